@@ -25,9 +25,11 @@ class VClock(object):
         self.now = start
         self.reads = 0
         self.slept = 0.0
+        self.tick = 1e-6        # what reading the clock costs (a slow host:
+                                # set it to a millisecond)
 
     def time(self):
-        self.now += 1e-6
+        self.now += self.tick
         self.reads += 1
         return self.now
 
@@ -42,6 +44,7 @@ CLOCK = VClock()        # one virtual clock per process (reset per case)
 
 def new_clock():
     CLOCK.now, CLOCK.reads, CLOCK.slept = 1.0e6, 0, 0.0
+    CLOCK.tick = 1e-6
     return CLOCK
 
 
@@ -83,7 +86,10 @@ class _SelectModule(object):
                 raise RuntimeError("select() would block forever")
             clock.now = max(clock.now, min(nxt))
         else:
-            deadline = clock.now + max(0.0, timeout)
+            if timeout < 0:
+                # the real select() contract
+                raise ValueError("timeout must be non-negative")
+            deadline = clock.now + timeout
             nxt = [s.inq[0][0] for s in r if s.inq and
                    s.inq[0][0] <= deadline]
             clock.now = max(clock.now, min(nxt)) if nxt else deadline
